@@ -6,6 +6,7 @@ from accelforge.mapper.FFM._join_pmappings.compatibility import (
 from collections import defaultdict
 import itertools
 import logging
+import os
 import time
 from typing import Any, Callable
 
@@ -867,6 +868,13 @@ def join_pmappings(
         # be able to merge with it. If so, we can drop them immediately.
         # ======================================================================
         lookahead_filter = True
+        if (
+            os.environ.get("ACCELFORGE_VERIF") == "1"
+            and os.environ.get("ACCELFORGE_VERIF_NO_LOOKAHEAD") == "1"
+        ):
+            # Verification hook (off by default): lets a checker run the join without
+            # the lookahead elimination to compare against the accelerated join.
+            lookahead_filter = False
         if lookahead_filter:
             cur_tensors = left_tensors | right_tensors
             for next_pmapping_groups in pmgroups:
